@@ -74,7 +74,8 @@ def _new_store(env: Env, bs, real: bool, scratch: Optional[str] = None):
 
 def _build_blocks(env: Env, gen, parents: Tuple[int, ...], keys: List[int], vals: List[int], datas: List[int], incl: List[int]):
     """Block i+1 has parent index parents[i] (0 = genesis). incl[i]: 0 reward only, 1 the pending transaction T (spends the
-    genesis output), 2 a DIFFERENT transaction T2 spending the same output, 3 a spend of the parent's reward output.
+    genesis output), 2 a DIFFERENT transaction T2 spending the same output, 3 a spend of the parent's reward output, 4 a
+    two-input spend of both outputs of T in descending index order.
     Returns (genesis, blocks, heights)."""
     dt, sg = env.dt, env.sg
     g = dt.Block.deserialize(gen.genesis_block_data)
@@ -94,6 +95,10 @@ def _build_blocks(env: Env, gen, parents: Tuple[int, ...], keys: List[int], vals
             txs.append(pending)
         elif incl[i] == 2:
             txs.append(pending2)
+        elif incl[i] == 4:
+            # both outputs of the pending transaction, in DESCENDING index order (input position != output index)
+            txs.append(dt.Transaction([dt.Input(dt.OutputReference(pending.hash(), 1), sigB), dt.Input(dt.OutputReference(pending.hash(), 0), sigA)],
+                                      [dt.Output(1000, K[1])]))
         elif incl[i] == 3:
             pcb = par.transactions[0]
             txs.append(dt.Transaction([dt.Input(dt.OutputReference(pcb.hash(), 0), sigA)], [dt.Output(pcb.outputs[0].value, K[0])]))
@@ -115,13 +120,25 @@ def _valid_history(parents: Tuple[int, ...], incl: List[int]) -> bool:
                 p = parents[p - 1]
         if incl[i] == 3 and parents[i] == 0:
             return False
+        if incl[i] == 4:
+            # needs the pending transaction in an ancestor and no other spend of its outputs on the way
+            p, found = parents[i], False
+            while p != 0:
+                if incl[p - 1] == 4:
+                    return False
+                if incl[p - 1] == 1:
+                    found = True
+                p = parents[p - 1]
+            if not found:
+                return False
     # the parent's reward is spent at most once per chain: two children may both spend it (different forks), fine
     return True
 
 
 def store_roundtrip(parents: Tuple[int, ...], flush_mask: int, sym: Tuple[int, ...] = (0, 1, 2, 3), spends: Optional[Tuple[int, ...]] = None,
-                    exclude_known: bool = True, only_known: bool = False, twin: bool = False, real: bool = False):
-    """sym: indices of the blocks whose reward (key, value) and pending-transaction inclusion are symbolic; the others get
+                    exclude_known: bool = True, only_known: bool = False, rewrite: Optional[int] = None, twin: bool = False, real: bool = False):
+    """rewrite: index of a block that is buffered and flushed a second time at the end.
+    sym: indices of the blocks whose reward (key, value) and pending-transaction inclusion are symbolic; the others get
     concrete, pairwise different rewards and do not include the pending transaction."""
     env, bs, su, gen = _env(real)
     n = len(parents)
@@ -139,7 +156,7 @@ def store_roundtrip(parents: Tuple[int, ...], flush_mask: int, sym: Tuple[int, .
             if u != 0:
                 return True
         for u in incl:
-            if not (0 <= u <= 3):
+            if not (0 <= u <= 4):
                 return True
         if spends is not None and list(incl) != list(spends):
             return True          # which extra transaction each block carries is a case split of this instance
@@ -169,6 +186,58 @@ def store_roundtrip(parents: Tuple[int, ...], flush_mask: int, sym: Tuple[int, .
         if only_known and not shared:
             return True
         store, handle = _new_store(env, bs, real)
+
+        def readback_ok(flushed: List[Any]) -> bool:
+            got = list(store.read_blocks_from_disk())
+            if twin:
+                return True
+            if len(got) != len(flushed):
+                return False
+            seen: List[bytes] = []
+            for rb in got:
+                match = [w for w in flushed if w.hash() == rb.hash()]
+                if len(match) != 1:
+                    return False
+                w = match[0]
+                if rb.serialize() != w.serialize():
+                    return False
+                if [t.hash() for t in rb.transactions] != [t.hash() for t in w.transactions]:
+                    return False
+                if rb.previous_block_hash != ZERO32 and rb.previous_block_hash not in seen:
+                    return False          # a parent must come before its children
+                seen.append(rb.hash())
+            # a restart: the real read_chain_from_disk loop on this store
+            saved_inst = bs.DefaultBlockStore.instance
+            saved_print = getattr(su, "print", None)
+            su.print = lambda *a, **k: None
+            su.os = _NoFiles
+            bs.DefaultBlockStore.instance = store
+            try:
+                rebuilt = su.read_chain_from_disk()
+            finally:
+                bs.DefaultBlockStore.instance = saved_inst
+                su.os = os
+                if saved_print is None:
+                    del su.print
+                else:
+                    su.print = saved_print
+            # compare with the in-memory state restricted to the flushed blocks
+            ref = env.cstate.CoinState.empty()
+            for w in flushed:
+                ref = ref.add_block_no_validation(w)
+            if rebuilt.head().height != ref.head().height:
+                return False
+            for w in flushed:
+                if w.hash() not in rebuilt.unspent_transaction_outs_by_hash:
+                    return False
+                ua = sorted(((k.hash, k.index), o.value, o.public_key.public_key) for (k, o) in
+                            rebuilt.unspent_transaction_outs_by_hash[w.hash()].items())
+                ub = sorted(((k.hash, k.index), o.value, o.public_key.public_key) for (k, o) in
+                            ref.unspent_transaction_outs_by_hash[w.hash()].items())
+                if ua != ub:
+                    return False
+            return True
+
         try:
             if not real:
                 db = handle.dbs["chain.db"]
@@ -185,55 +254,15 @@ def store_roundtrip(parents: Tuple[int, ...], flush_mask: int, sym: Tuple[int, .
                     store.flush_blocks_to_disk()
                     if len(store.write_buffer) != 0:
                         return False
-                    flushed = list(written)
-                    got = list(store.read_blocks_from_disk())
-                    if twin:
-                        continue
-                    if len(got) != len(flushed):
+                    if not readback_ok(list(written)):
                         return False
-                    seen: List[bytes] = []
-                    for rb in got:
-                        match = [w for w in flushed if w.hash() == rb.hash()]
-                        if len(match) != 1:
-                            return False
-                        w = match[0]
-                        if rb.serialize() != w.serialize():
-                            return False
-                        if [t.hash() for t in rb.transactions] != [t.hash() for t in w.transactions]:
-                            return False
-                        if rb.previous_block_hash != ZERO32 and rb.previous_block_hash not in seen:
-                            return False          # a parent must come before its children
-                        seen.append(rb.hash())
-                    # a restart: the real read_chain_from_disk loop on this store
-                    saved_inst = bs.DefaultBlockStore.instance
-                    saved_print = getattr(su, "print", None)
-                    su.print = lambda *a, **k: None
-                    su.os = _NoFiles
-                    bs.DefaultBlockStore.instance = store
-                    try:
-                        rebuilt = su.read_chain_from_disk()
-                    finally:
-                        bs.DefaultBlockStore.instance = saved_inst
-                        su.os = os
-                        if saved_print is None:
-                            del su.print
-                        else:
-                            su.print = saved_print
-                    # compare with the in-memory state restricted to the flushed blocks
-                    ref = env.cstate.CoinState.empty()
-                    for w in flushed:
-                        ref = ref.add_block_no_validation(w)
-                    if rebuilt.head().height != ref.head().height:
-                        return False
-                    for w in flushed:
-                        if w.hash() not in rebuilt.unspent_transaction_outs_by_hash:
-                            return False
-                        ua = sorted(((k.hash, k.index), o.value, o.public_key.public_key) for (k, o) in
-                                    rebuilt.unspent_transaction_outs_by_hash[w.hash()].items())
-                        ub = sorted(((k.hash, k.index), o.value, o.public_key.public_key) for (k, o) in
-                                    ref.unspent_transaction_outs_by_hash[w.hash()].items())
-                        if ua != ub:
-                            return False
+            if rewrite is not None and not twin:
+                # the same block reaches the store again after its children were flushed (a second process on the same file,
+                # a re-buffered block): nothing may change
+                store.add_block_to_buffer(blocks[rewrite])
+                store.flush_blocks_to_disk()
+                if not readback_ok(list(written)):
+                    return False
             return not twin
         finally:
             if real:
@@ -332,6 +361,9 @@ def stub_vs_sqlite():
     scenarios.append(("shared-pending", (0, 0), 1, [0, 1], [5, 6], [0, 0], [1, 1]))
     scenarios.append(("conflicting-spends-on-forks", (0, 0), 1, [0, 1], [5, 6], [0, 0], [1, 2]))
     scenarios.append(("orphan-fk", None, 0, None, None, None, None))
+    scenarios.append(("sql-replace", (0, 1), 1, [0, 1], [5, 6], [0, 0], [0, 3]))
+    scenarios.append(("sql-replace", (0, 1, 2), 3, [0, 1, 0], [5, 6, 7], [0, 0, 0], [1, 4, 0]))
+    scenarios.append(("tree-two-inputs", (0, 1, 2), 1, [0, 1, 0], [5, 6, 7], [0, 0, 0], [1, 0, 4]))
     mismatches: List[str] = []
 
     def dump(store, bs) -> Any:
@@ -377,6 +409,20 @@ def stub_vs_sqlite():
                             events.append("ok")
                         except Exception as e:  # noqa
                             events.append(type(e).__name__)
+            if kind == "sql-replace":
+                # the statements a changed store could issue: REPLACE of a row that has children, plain INSERT of a duplicate
+                for (t, pos, stmt) in (("chain", 1, "insert or replace into chain values (?,?,?,?,?,?,?,?,?,?,?)"),
+                                       ("transaction_locator", 1, "insert or replace into transaction_locator values (?,?)"),
+                                       ("transaction_outputs", 0, "insert or replace into transaction_outputs values (?,?,?,?)"),
+                                       ("chain", 2, "insert into chain values (?,?,?,?,?,?,?,?,?,?,?)")):
+                    row = [tuple(r) for r in store.sql("select * from %s" % t)][pos]
+                    cur = store.connection.cursor()
+                    try:
+                        cur.execute(stmt, row)
+                        events.append("ok")
+                    except Exception as e:  # noqa
+                        events.append(type(e).__name__)
+                    cur.close()
             tables = {}
             for t in ("chain", "transaction_locator", "transaction_inputs", "transaction_outputs"):
                 tables[t] = [tuple(r) for r in store.sql("select * from %s" % t)]
@@ -415,9 +461,9 @@ def obligations(tier: str, known: List[str]) -> List[Ob]:
     obs: List[Ob] = [Ob("relational-stand-in == sqlite3", C_1, "stub_vs_sqlite", {}, kind="anchor", timeout=600)]
     PATTERNS = {
         (0,): [(0,), (1,)],
-        (0, 1): [(0, 0), (1, 0), (0, 3), (1, 3)],
+        (0, 1): [(0, 0), (1, 0), (0, 3), (1, 3), (1, 4)],
         (0, 0): [(0, 0), (1, 2), (1, 0)],
-        (0, 1, 2): [(1, 3, 3), (0, 3, 0)],
+        (0, 1, 2): [(1, 3, 3), (0, 3, 0), (1, 0, 4)],
         (0, 0, 1): [(1, 2, 3), (0, 0, 3)],
         (0, 1, 1): [(0, 1, 2), (0, 3, 3)],
         (0, 0, 0): [(1, 2, 0)],
@@ -450,6 +496,12 @@ def obligations(tier: str, known: List[str]) -> List[Ob]:
                         "".join(map(str, parents)), "".join(map(str, sp)), format(mask, "0%db" % max(1, n - 1)), "".join(map(str, sym))),
                         C_1 + "; " + C_2, "store_roundtrip",
                         {"parents": parents, "flush_mask": mask, "sym": tuple(sym), "spends": tuple(sp), "exclude_known": excl}, timeout=T))
+    for (parents, sp, mask, rw) in (((0, 1), (0, 3), 1, 0), ((0, 1, 2), (1, 3, 0), 3, 1), ((0, 0, 1), (0, 0, 3), 0, 0)):
+        if not thorough and parents == (0, 0, 1):
+            continue
+        obs.append(Ob("block-written-again-after-its-child[parents=%s,extra-tx=%s,flush=%s,again=%d]" % (
+            "".join(map(str, parents)), "".join(map(str, sp)), format(mask, "0%db" % (len(parents) - 1)), rw), C_1 + "; " + C_2, "store_roundtrip",
+            {"parents": parents, "flush_mask": mask, "sym": tuple(range(len(parents)))[(-2 if thorough else -1):], "spends": sp, "exclude_known": excl, "rewrite": rw}, timeout=T))
     obs.append(twin_of([o for o in obs if o.name.startswith("roundtrip[parents=00,")][0], timeout=300))
     obs.append(Ob("block-added-while-a-flush-is-writing", C_1, "concurrent_add", {}, timeout=T))
     obs.append(Ob("finding[shared-transaction-id]", C_1, "store_roundtrip",
